@@ -3,7 +3,7 @@
 # /verif/seeded/<prop>-s<k>, then runs the property's check (fast mode) against each and prints the verdict
 PROP="$1"; WT="$2"; K="$3"
 O=/root/intake-out; mkdir -p $O; ln -sfn /verif/standins $O/standins; ln -sf /verif/known_findings.json $O/known_findings.json
-for i in 1 2; do
+for i in $(ls "$WT/out" 2>/dev/null | grep -E "^[0-9]+$" | sort -n); do
   N="$PROP-s$((K+i-1))"
   /verif/tools/seed_verify.sh "$WT" $i "$PROP" "$N" 2>&1 | tail -2
   [ -f /verif/seeded/$N/patch.diff ] || continue
